@@ -6,40 +6,42 @@ From Emmet Require Import lib.Base model.MarkupTokenizer model.MarkupParser mode
 Import ListNotations.
 
 (* ---------------------------------------------------------------- strings without line breaks *)
-Definition nolb (s : str) : bool := forallb (fun ch => negb (is_linebreak ch)) s.
+(* the formatter splits lines at CR, LF and CRLF only (output_stream.re_line_break); every other character,
+   including \f, \v, U+0085, U+2028, is an ordinary character of a line *)
+Definition is_crlf (ch : char) : bool := ((ch =? c_cr) || (ch =? c_nl))%N.
+Definition nocrlf (s : str) : bool := forallb (fun ch => negb (is_crlf ch)) s.
 Definition nows (s : str) : bool := forallb (fun ch => negb (is_py_space ch)) s.
 
-Lemma nolb_app a b : nolb (a ++ b) = nolb a && nolb b.
-Proof. unfold nolb. apply forallb_app. Qed.
+Lemma nocrlf_app a b : nocrlf (a ++ b) = nocrlf a && nocrlf b.
+Proof. unfold nocrlf. apply forallb_app. Qed.
 
-Lemma linebreak_is_space ch : is_linebreak ch = true -> is_py_space ch = true.
+Lemma linebreak_is_space ch : is_crlf ch = true -> is_py_space ch = true.
 Proof.
-  assert (H : forallb is_py_space py_linebreaks = true) by (vm_compute; reflexivity).
-  unfold is_linebreak. rewrite existsb_exists. intros [x [Hin Hx]].
-  apply N.eqb_eq in Hx. subst x. rewrite forallb_forall in H. apply H, Hin.
+  unfold is_crlf. intros H. apply orb_true_iff in H. destruct H as [H|H]; apply N.eqb_eq in H; subst ch;
+    vm_compute; reflexivity.
 Qed.
 
-Lemma nows_nolb s : nows s = true -> nolb s = true.
+Lemma nows_nocrlf s : nows s = true -> nocrlf s = true.
 Proof.
-  unfold nows, nolb. rewrite !forallb_forall. intros H x Hx. specialize (H x Hx).
-  destruct (is_linebreak x) eqn:E; [|reflexivity].
+  unfold nows, nocrlf. rewrite !forallb_forall. intros H x Hx. specialize (H x Hx).
+  destruct (is_crlf x) eqn:E; [|reflexivity].
   apply linebreak_is_space in E. rewrite E in H. discriminate.
 Qed.
 
-Lemma splitlines_aux_nolb : forall s cur, nolb s = true ->
-  splitlines_aux s cur = match rev cur ++ s with [] => [] | x => [x] end.
+Lemma split_crlf_aux_nocrlf : forall s cur, nocrlf s = true ->
+  split_crlf_aux s cur = match rev cur ++ s with [] => [] | x => [x] end.
 Proof.
   induction s as [|ch s IH]; intros cur H.
-  - cbn [splitlines_aux]. rewrite app_nil_r. destruct cur as [|c0 cur]; [reflexivity|].
+  - cbn [split_crlf_aux]. rewrite app_nil_r. destruct cur as [|c0 cur]; [reflexivity|].
     destruct (rev (c0 :: cur)) eqn:E; [|reflexivity].
     cbn [rev] in E. destruct (rev cur); discriminate.
-  - cbn [nolb forallb] in H. fold (nolb s) in H. apply andb_true_iff in H. destruct H as [Hc Hs].
-    apply negb_true_iff in Hc. cbn [splitlines_aux]. rewrite Hc. rewrite (IH (ch :: cur) Hs).
+  - cbn [nocrlf forallb] in H. fold (nocrlf s) in H. apply andb_true_iff in H. destruct H as [Hc Hs].
+    apply negb_true_iff in Hc. cbn [split_crlf_aux]. fold (is_crlf ch). rewrite Hc. rewrite (IH (ch :: cur) Hs).
     cbn [rev]. rewrite <- app_assoc. reflexivity.
 Qed.
 
-Lemma splitlines_nolb s : nolb s = true -> splitlines s = match s with [] => [] | _ => [s] end.
-Proof. intros H. unfold splitlines. rewrite (splitlines_aux_nolb s [] H). destruct s; reflexivity. Qed.
+Lemma split_crlf_nocrlf s : nocrlf s = true -> split_crlf s = match s with [] => [] | _ => [s] end.
+Proof. intros H. unfold split_crlf. rewrite (split_crlf_aux_nocrlf s [] H). destruct s; reflexivity. Qed.
 
 (* ---------------------------------------------------------------- value / level of a stream *)
 Lemma value_push_gen b o s : os_value (os_push_gen b o s) = os_value o ++ s.
@@ -79,10 +81,10 @@ Qed.
 Lemma level_push_newline f o i : os_level (os_push_newline f o i) = os_level o.
 Proof. unfold os_push_newline, os_push_indent. destruct i as [[n|]|]; reflexivity. Qed.
 
-Lemma push_string_nolb f o s : nolb s = true ->
+Lemma push_string_nocrlf f o s : nocrlf s = true ->
   os_value (os_push_string f o s) = os_value o ++ s /\ os_level (os_push_string f o s) = os_level o.
 Proof.
-  intros H. unfold os_push_string. rewrite (splitlines_nolb s H). destruct s as [|ch s].
+  intros H. unfold os_push_string. rewrite (split_crlf_nocrlf s H). destruct s as [|ch s].
   - rewrite app_nil_r. split; reflexivity.
   - cbn [fold_left]. rewrite value_push. split; reflexivity.
 Qed.
@@ -103,21 +105,21 @@ Qed.
 Lemma appends_eq st st' a b : a = b -> appends st st' a -> appends st st' b.
 Proof. intros ->. exact (fun H => H). Qed.
 
-Lemma appends_push_str c s st : nolb s = true -> appends st (push_str c s st) s.
-Proof. intros H. unfold appends, val, lvl, push_str. cbn [fs_out]. apply push_string_nolb, H. Qed.
+Lemma appends_push_str c s st : nocrlf s = true -> appends st (push_str c s st) s.
+Proof. intros H. unfold appends, val, lvl, push_str. cbn [fs_out]. apply push_string_nocrlf, H. Qed.
 Lemma appends_push_raw s st : appends st (push_raw s st) s.
 Proof. unfold appends, val, lvl, push_raw. cbn [fs_out]. rewrite value_push. split; reflexivity. Qed.
 
 (* text of a token list: strings verbatim, a field by its placeholder *)
 Definition tok_text (t : vtok) : str := match t with VStr s => s | VField _ nm => nm end.
 Definition val_text (v : list vtok) : str := concat (map tok_text v).
-Definition tok_nolb (t : vtok) : bool := match t with VStr s => nolb s | VField _ _ => true end.
-Definition toks_nolb (v : list vtok) : bool := forallb tok_nolb v.
+Definition tok_nocrlf (t : vtok) : bool := match t with VStr s => nocrlf s | VField _ _ => true end.
+Definition toks_nocrlf (v : list vtok) : bool := forallb tok_nocrlf v.
 
-Lemma appends_push_tokens c toks st : toks_nolb toks = true -> appends st (push_tokens c toks st) (val_text toks).
+Lemma appends_push_tokens c toks st : toks_nocrlf toks = true -> appends st (push_tokens c toks st) (val_text toks).
 Proof.
   intros H. unfold push_tokens.
-  assert (G : forall toks o lg, toks_nolb toks = true ->
+  assert (G : forall toks o lg, toks_nocrlf toks = true ->
             let r := fold_left (fun '(o, lg) t =>
                  match t with
                  | VStr s => (os_push_string (oc_fmt c) o s, lg)
@@ -127,9 +129,9 @@ Proof.
             os_value (fst r) = os_value o ++ val_text toks /\ os_level (fst r) = os_level o).
   { clear toks H. induction toks as [|t ts IH]; intros o lg H; cbn zeta.
     - cbn [fold_left fst val_text map concat]. rewrite app_nil_r. split; reflexivity.
-    - cbn [toks_nolb forallb] in H. fold (toks_nolb ts) in H. apply andb_true_iff in H. destruct H as [Ht Hts].
+    - cbn [toks_nocrlf forallb] in H. fold (toks_nocrlf ts) in H. apply andb_true_iff in H. destruct H as [Ht Hts].
       cbn [fold_left]. destruct t as [s|i nm].
-      + cbn [tok_nolb] in Ht. destruct (push_string_nolb (oc_fmt c) o s Ht) as [V L].
+      + cbn [tok_nocrlf] in Ht. destruct (push_string_nocrlf (oc_fmt c) o s Ht) as [V L].
         destruct (IH (os_push_string (oc_fmt c) o s) lg Hts) as [V2 L2]. cbn zeta in V2, L2.
         rewrite V2, L2, V, L. unfold val_text. cbn [map concat tok_text]. rewrite app_assoc. split; reflexivity.
       + destruct (IH (os_push_field o (fs_field st + i)%N nm)
@@ -175,12 +177,12 @@ Qed.
 (* a string with at most one line (it may end in a line break): push_string pushes that line only *)
 Definition tok_single (t : vtok) : bool :=
   match t with
-  | VStr s => match splitlines s with _ :: _ :: _ => false | _ => true end
+  | VStr s => match split_crlf s with _ :: _ :: _ => false | _ => true end
   | VField _ _ => true
   end.
 Definition first_line (t : vtok) : vtok :=
   match t with
-  | VStr s => VStr (match splitlines s with l0 :: _ => l0 | [] => [] end)
+  | VStr s => VStr (match split_crlf s with l0 :: _ => l0 | [] => [] end)
   | VField _ _ => t
   end.
 
@@ -201,9 +203,9 @@ Proof.
     - cbn [forallb] in H. apply andb_true_iff in H. destruct H as [Ht Hts].
       cbn [fold_left]. destruct t as [s|i nm].
       + assert (P : os_value (os_push_string (oc_fmt c) o s)
-                    = os_value o ++ match splitlines s with l0 :: _ => l0 | [] => [] end
+                    = os_value o ++ match split_crlf s with l0 :: _ => l0 | [] => [] end
                     /\ os_level (os_push_string (oc_fmt c) o s) = os_level o).
-        { unfold os_push_string. cbn [tok_single] in Ht. destruct (splitlines s) as [|l0 [|l1 ls]]; try discriminate.
+        { unfold os_push_string. cbn [tok_single] in Ht. destruct (split_crlf s) as [|l0 [|l1 ls]]; try discriminate.
           - rewrite app_nil_r. split; reflexivity.
           - cbn [fold_left]. rewrite value_push. split; reflexivity. }
         destruct P as [V L].
